@@ -9,8 +9,48 @@ pub fn silence_panics() {
     std::panic::set_hook(Box::new(|_| {}));
 }
 
+/// Progress counter of the driver: every guarded call into the code under test and every output
+/// line is a beat. The monitor thread (below) reports a HANG when the process has burnt more than
+/// `VERIF_HANG_CPU` (default 300) seconds of CPU TIME without a beat - the longest legitimate single
+/// call of any driver takes about 10 s; CPU time does not depend on how busy the machine is.
+static BEATS: std::sync::atomic::AtomicU64 = std::sync::atomic::AtomicU64::new(0);
+pub fn beat() {
+    BEATS.fetch_add(1, std::sync::atomic::Ordering::Relaxed);
+}
+fn process_cpu_seconds() -> Option<f64> {
+    let stat = std::fs::read_to_string("/proc/self/stat").ok()?;
+    let after = stat.rsplit_once(')')?.1;
+    let f: Vec<&str> = after.split_whitespace().collect();
+    Some((f.get(11)?.parse::<u64>().ok()? + f.get(12)?.parse::<u64>().ok()?) as f64 / 100.0)
+}
+/// A call into the code under test that never returns is an observation too: print
+/// `HANG-OBSERVED {..}` and exit with status 4 (the check turns that into a violation).
+pub fn start_hang_monitor(driver: &str) {
+    let driver = driver.to_string();
+    let limit: f64 = std::env::var("VERIF_HANG_CPU").ok().and_then(|v| v.parse().ok()).unwrap_or(300.0);
+    std::thread::spawn(move || {
+        let mut last = BEATS.load(std::sync::atomic::Ordering::Relaxed);
+        let mut cpu_at = process_cpu_seconds().unwrap_or(0.0);
+        loop {
+            std::thread::sleep(std::time::Duration::from_millis(1000));
+            let Some(cpu) = process_cpu_seconds() else { return };
+            let now = BEATS.load(std::sync::atomic::Ordering::Relaxed);
+            if now != last {
+                last = now;
+                cpu_at = cpu;
+            } else if cpu - cpu_at > limit {
+                println!("HANG-OBSERVED {}", serde_json::json!({"subcommand": driver, "cpu_seconds_without_progress": cpu - cpu_at,
+                                                                  "calls_completed_before": now}));
+                let _ = std::io::stdout().flush();
+                std::process::exit(4);
+            }
+        }
+    });
+}
+
 /// Run `f`, turning a panic into `Err(message)`.
 pub fn guarded<T>(f: impl FnOnce() -> T) -> Result<T, String> {
+    beat();
     catch_unwind(AssertUnwindSafe(f)).map_err(|e| {
         if let Some(s) = e.downcast_ref::<&str>() {
             (*s).to_string()
@@ -53,6 +93,7 @@ impl Out {
         Self { w: BufWriter::new(f) }
     }
     pub fn line(&mut self, v: &Value) {
+        beat();
         serde_json::to_writer(&mut self.w, v).expect("write");
         self.w.write_all(b"\n").expect("write");
     }
